@@ -472,6 +472,30 @@ fn apply_dc_filter_for_sample(dc: &mut DcFilter, index: usize, x: f64) -> f64 {
     x - dc.sum / DC_FILTER_SIZE as f64
 }
 
+/// Verification hooks, compiled only with `--cfg rustzx_verif`
+#[cfg(rustzx_verif)]
+impl AymPrecise {
+    /// One chip tick (`update_mixer`): returns the raw pre-filter (left, right) output
+    pub fn verif_tick(&mut self) -> (f64, f64) {
+        self.update_mixer();
+        (self.left, self.right)
+    }
+
+    /// (tone output bit per channel, noise output bit, envelope level 0..=31, noise LFSR)
+    pub fn verif_levels(&self) -> ([usize; 3], usize, usize, usize) {
+        (
+            [
+                self.channels[0].tone,
+                self.channels[1].tone,
+                self.channels[2].tone,
+            ],
+            self.noise & 1,
+            self.envelope,
+            self.noise,
+        )
+    }
+}
+
 impl AymPrecise {
     /// Enabled dc filter for samples
     pub fn enable_dc_filter(&mut self) {
